@@ -186,6 +186,41 @@ theorem frontcf_then_passes_refines (f : Function) (hv : validate f = true)
   obtain ⟨h1, h2⟩ := frontcf_passes_sound w (lowerCF f) hwf (ec :: mc :: args) (fuel + k)
   exact ⟨by rw [h1, hk], by rw [h2, hk]⟩
 
+/-- … in all three parts: forward, backward, divergence (the passes do not change the outcome at any fuel) -/
+theorem frontcf_then_passes_refines_full (f : Function) (hv : validate f = true)
+    (hwf : wellFormedA (lowerCF f) = true) (args : List Nat) (hargs : ArgsOK f.sig args) (w : World) (ec mc : Nat) :
+    (∀ n, Wz.Model.FrontendCF.runSpec f args n ≠ .exhausted →
+      ∃ k, ∀ fuel, run w (runPasses (lowerCF f)) (ec :: mc :: args) (fuel + k) =
+        ofSpecCF (Wz.Model.FrontendCF.runSpec f args n)) ∧
+    (∀ fuel o, run w (runPasses (lowerCF f)) (ec :: mc :: args) fuel = o → o ≠ .outOfFuel →
+      ∃ n, Wz.Model.FrontendCF.runSpec f args n ≠ .exhausted ∧
+        ofSpecCF (Wz.Model.FrontendCF.runSpec f args n) = o) ∧
+    ((∀ n, Wz.Model.FrontendCF.runSpec f args n = .exhausted) ↔
+      (∀ fuel, run w (runPasses (lowerCF f)) (ec :: mc :: args) fuel = .outOfFuel)) := by
+  have hp : ∀ fuel, run w (runPasses (lowerCF f)) (ec :: mc :: args) fuel = run w (lowerCF f) (ec :: mc :: args) fuel :=
+    fun fuel => (frontcf_passes_sound w (lowerCF f) hwf (ec :: mc :: args) fuel).1
+  obtain ⟨h1, h2, h3⟩ := frontcf_refines_validated_full f hv args hargs w ec mc
+  refine ⟨fun n hn => ?_, fun fuel o h ho => ?_, ?_⟩
+  · obtain ⟨k, hk⟩ := h1 n hn
+    exact ⟨k, fun fuel => by rw [hp, hk]⟩
+  · exact h2 fuel o (by rw [← hp]; exact h) ho
+  · rw [h3]
+    constructor
+    · intro h fuel; rw [hp]; exact h fuel
+    · intro h fuel; rw [← hp]; exact h fuel
+
+/-- the alias table the front end hands to the passes is in the resolved form the pass model keeps (no target of an
+entry is itself a key), for EVERY function -/
+theorem frontcf_alias_normal_form (f : Function) : AliasNF (lowerCF f).alias := by
+  show AliasNF (aliasTable (build f).aliases)
+  unfold aliasTable
+  generalize (build f).aliases = as
+  suffices h : ∀ (al : List (Val × Val)), AliasNF al → AliasNF (as.foldl (fun al p => aliasInsert al p.1 p.2) al) from
+    h [] aliasNF_nil
+  induction as with
+  | nil => intro al h; exact h
+  | cons p ps ih => intro al h; exact ih _ (aliasNF_insert h p.1 p.2)
+
 /-! ### non-vacuity -/
 
 /-- the callee world of the tests below (the fragment has no calls) -/
